@@ -141,6 +141,7 @@ class Net:
         self.sockets = []
         self.conns = []
         self.next_fd = 10
+        self.os_fds = set()
         self.max_bufsize = 0
         self.counters = {}
         self.resolver_calls = []
@@ -227,8 +228,15 @@ class SimSocket:
         self.family, self.type, self.proto = family, type, proto
         self.index = len(net.sockets)
         net.sockets.append(self)
-        self.fd = net.next_fd
+        self.fd = net.next_fd  # unique for the whole run: identifies the socket in the event log
         net.next_fd += 1
+        # what fileno() reports is, as in a real process, the lowest descriptor number that is free: a socket opened after
+        # another one was closed gets the same number again (selectors key their maps by it)
+        n = 10
+        while n in net.os_fds:
+            n += 1
+        self.osfd = n
+        net.os_fds.add(n)
         self.timeout = net.default_socket_timeout  # what socket.setdefaulttimeout() of the application would give
         self.opts = []
         self.closed = False
@@ -294,7 +302,7 @@ class SimSocket:
         return 0
 
     def fileno(self):
-        return -1 if self.closed else self.fd
+        return -1 if self.closed else self.osfd
 
     def getpeername(self):
         if self.conn is None:
@@ -516,10 +524,12 @@ class SimSocket:
         k = self.k
         if k.abort_reason is not None:
             self.closed = True
+            self.net.os_fds.discard(self.osfd)
             return
         if self.closed:
             return
         self.closed = True
+        self.net.os_fds.discard(self.osfd)
         k.ev("close", self.fd)
         if self.conn is not None and not self.conn.client_closed:
             self.conn.client_closed = True
@@ -528,7 +538,7 @@ class SimSocket:
 
     def detach(self):
         self.closed = True
-        return self.fd
+        return self.osfd
 
     def __enter__(self):
         return self
@@ -576,7 +586,7 @@ class SimSelector:
             raise KeyError("%r (FD %d) is already registered" % (fileobj, fd))
         key = SelectorKey(fileobj, fd, events, data)
         self.map[fd] = key
-        self.k.ev("sel_register", fd, events)
+        self.k.ev("sel_register", fileobj._sim_sock().fd, events)
         return key
 
     def unregister(self, fileobj):
@@ -613,7 +623,7 @@ class SimSelector:
         k._check_abort()
         if self.closed:
             raise ValueError("I/O operation on closed selector")
-        k.ev("select_call", tuple(sorted(self.map)), timeout)
+        k.ev("select_call", tuple(sorted(key.fileobj._sim_sock().fd for key in self.map.values())), timeout)
         if timeout is None:
             ticks = None
         elif timeout <= 0:
@@ -625,7 +635,7 @@ class SimSelector:
         r = self._ready()
         if not r:
             self.net.count("select_timeout")
-        k.ev("select", tuple(key.fd for key, _ in r))
+        k.ev("select", tuple(key.fileobj._sim_sock().fd for key, _ in r))
         return r
 
     def close(self):
